@@ -72,6 +72,7 @@ NAMES = ["a", "dir name", "x.y", "@E", ".hidden", "日本", " ", "e_f", "...", "
 
 class C14(PropertyCheck):
     pid = "C14"
+    source_tables = ["Localize", "FS_CONFIG"]   # tables / constants regenerated from /repo's source (gen/srctables.py)
     rule = ("file-system half: random histories of localized and unlocalized write/read/exists/file_exists/directory_exists/resolve/create_dir/list on real "
             "temp-directory layers, rotating over the 5 supported games x 8 languages (generator shared with C12/C13); "
             "localize itself: exhaustive over 6 localizers x 8 languages x (paths of plain components from a 10-name alphabet, depth 1-2 (thorough 1-3) exhaustively, "
